@@ -381,9 +381,21 @@ def verdictJson (v : Verdict) : Json :=
   Json.mkObj [("agree", Json.bool v.agree), ("spec", kv v.spec), ("specModel", kv v.specModel),
     ("nontrivial", kv v.nontrivial), ("model", toJson v.model)]
 
+def allKeys : List String :=
+  ["C01", "C02", "C03", "C04", "C05", "C06", "C07", "C08", "C09", "C10", "C11", "C17", "C18"]
+
 def handle (sc obs : Json) : Json :=
   match fromJson? (α := ScJ) sc, fromJson? (α := ObsJ) obs with
   | .ok s, .ok o =>
+    -- "H": the run did not return within the harness watchdog. The model always terminates, so this is a
+    -- disagreement, and a violation of every property judged on this run.
+    if o.runs.any (·.out == "H") then
+      Json.mkObj [("agree", Json.bool false),
+        ("spec", Json.mkObj (allKeys.map fun k => (k, Json.bool false))),
+        ("specModel", Json.mkObj (allKeys.map fun k => (k, Json.bool true))),
+        ("nontrivial", Json.mkObj []),
+        ("model", Json.str "the implementation did not return (watchdog); the model terminates")]
+    else
     match process s o with
     | .ok v => verdictJson v
     | .error e => Json.mkObj [("badop", Json.str e)]
